@@ -27,7 +27,12 @@ func VerifC14Include() {
 	// include argument
 	var rel, arg string
 	b := Bindings{"v": nd.IntIn(0, 9), "s": nd.StringFrom(2, "ab")}
-	switch nd.Choice(7) {
+	switch nd.Choice(9) {
+	case 7: // a name that starts with the separator is still relative to the template's directory
+		rel, arg = "/sub/x.html", "'/sub/x.html'"
+	case 8:
+		rel, arg = "/x.html", "root | append: 'x.html'"
+		b["root"] = "/"
 	case 5:
 		rel, arg = "x.html", "\"x\" | append: \".html\""
 	case 6:
@@ -49,7 +54,7 @@ func VerifC14Include() {
 	diskSrc := "D[{{ v }}{{ s }}{{ q }}]"
 	cacheSrc := "C[{{ v }}{{ q }}{{ s }}]"
 	e := NewEngine()
-	state := nd.Choice(9)
+	state := nd.Choice(10)
 	want := ""
 	wantErr := false
 	switch state {
@@ -73,6 +78,11 @@ func VerifC14Include() {
 		_, err = e.ParseTemplateAndCache([]byte(cacheSrc), target, 1)
 		nd.Assert(err == nil, "cache-parse-again")
 		want = cacheSrc
+	case 9: // an empty file on disk is still the file: it takes precedence over cached source
+		nd.SetFile(target, "", 0)
+		_, err := e.ParseTemplateAndCache([]byte(cacheSrc), target, 1)
+		nd.Assert(err == nil, "cache-parse")
+		want = ""
 	case 7: // a registration that fails to parse registers nothing: the earlier source stays
 		_, err := e.ParseTemplateAndCache([]byte(cacheSrc), target, 1)
 		nd.Assert(err == nil, "cache-parse")
